@@ -244,7 +244,7 @@ class Context(object):
             try:
                 with open(filename, 'rb') as fh:
                     d = pickle.load(fh)
-                    if rtype not in list(d.keys()):
+                    if not isinstance(d.get(rtype), dict):
                         d[rtype] = {}
             except:
                 os.remove(filename)
